@@ -1,12 +1,17 @@
 (* Correspondence and monitor for C07, evaluated on cases written by harness/props/c07.py. *)
 From Coq Require Import NArith List Bool Arith.
 Import ListNotations.
-From HV Require Export lib.Harness model.Types spec.TypesS.
+From HV Require Export lib.Harness model.Types spec.TypesS model.TypesSame spec.TypesSameS.
 
 (* one entry of a history (see CSeq): same observations as CTy / CStatic *)
 Inductive step :=
 | STy (t : ty) (ob : option bound) (oopq : option (option bound)) (oser : option (list bound))
 | SStatic (elem : ty) (acc : option bool) (ob : option bound).
+
+(* one link of a chain (see CSame): the operation, the type the returned object denotes (printed from the
+   object; None = the operation raised) and what the implementation reports for that object *)
+Inductive sstep :=
+| SOp (op : sameop) (res : option ty) (ob : option bound) (oopq : option (option bound)) (oser : option (list bound)).
 
 Inductive case :=
 (* a type; observed: type_bound() (None = raised), the bound inside _to_opaque() (outer None = not an
@@ -23,7 +28,15 @@ Inductive case :=
    implementation reported at that moment.  The property speaks about "the bound reported for any
    type" and "the bound written into a serialized extension type": both are functions of the type's
    current value, so every entry must satisfy exactly what a freshly built type satisfies. *)
-| CSeq (steps : list step).
+| CSeq (steps : list step)
+(* a chain of operations that hand "the same" type back: the type t is built and observed, then each
+   operation (resolve against the registry reg — through Type.resolve, TypeTypeArg.resolve or
+   SequenceArg.resolve —, copy.copy, copy.deepcopy, dataclasses.replace, _to_serial().deserialize()) is
+   applied to the object the previous one returned, and the returned object is printed and observed.  The
+   property says that variables, aliases and opaque types report their DECLARED bound and that the written
+   bound is the computed one: a type that comes back from such an operation is still that type. *)
+| CSame (reg : registry) (t : ty) (ob : option bound) (oopq : option (option bound)) (oser : option (list bound))
+        (steps : list sstep).
 
 Definition ob_eqb := option_eqb bound_eqb.
 Definition opaque_bound (t : ty) : option bound :=
@@ -46,12 +59,25 @@ Definition corr_step (s : step) : bool :=
   | STy t ob oopq oser => corr_ty t ob oopq oser
   | SStatic elem acc ob => corr_static elem acc ob
   end.
+(* the returned object denotes exactly the type the model computes, and reports what the model reports for it;
+   after an operation that raised nothing follows *)
+Fixpoint corr_chain (reg : registry) (prev : ty) (steps : list sstep) : bool :=
+  match steps with
+  | [] => true
+  | SOp op res ob oopq oser :: r =>
+      match apply_op reg op prev, res with
+      | Some m, Some t' => same_b Exact m t' && corr_ty t' ob oopq oser && corr_chain reg t' r
+      | None, None => match r with [] => true | _ => false end
+      | _, _ => false
+      end
+  end.
 Definition corr (c : case) : bool :=
   match c with
   | CTy t ob oopq oser => corr_ty t ob oopq oser
   | CStatic elem acc ob => corr_static elem acc ob
   | CJoin bs r => ob_eqb r (Some (join bs))
   | CSeq steps => forallb corr_step steps
+  | CSame reg t ob oopq oser steps => corr_ty t ob oopq oser && corr_chain reg t steps
   end.
 
 (* ---- monitor: the specification (copy_b, wf_b of spec/TypesS.v) on the implementation's observations ---- *)
@@ -79,10 +105,36 @@ Definition mon_step (s : step) : bool :=
   | STy t ob oopq oser => mon_ty t ob oopq oser
   | SStatic elem acc ob => mon_static elem acc ob
   end.
+(* what an operation may change between the type handed in (prev) and the type handed back (t'), and what
+   the returned object must report (spec/TypesSameS.v: same_b; nothing here refers to model/TypesSame.v):
+   - copies: nothing changes;
+   - resolve: opaque types may become extension types of the same extension and name, nothing else; if the
+     registry knows none of the type's opaque types, nothing changes at all;
+   - serialisation round trip: extension types come back as opaque types of the same extension and name; the
+     returned type reports the bound of the ORIGINAL and a document written from it carries the original's bounds;
+   in every case the returned object is judged like a freshly built type of the value it denotes. *)
+Definition mon_rel (reg : registry) (op : sameop) (prev t' : ty) (ob : option bound) (oser : option (list bound)) : bool :=
+  match op with
+  | OCopy | ODeepcopy | OReplace => same_b Exact prev t'
+  | OResolve => same_b Resolved prev t' && (negb (unknown_b reg prev) || same_b Exact prev t')
+  | ORoundtrip => same_b Serial prev t' && mon_ty prev ob None oser
+  end.
+Fixpoint mon_chain (reg : registry) (prev : ty) (steps : list sstep) : bool :=
+  match steps with
+  | [] => true
+  | SOp op res ob oopq oser :: r =>
+      match res with
+      | Some t' => mon_rel reg op prev t' ob oser && mon_ty t' ob oopq oser && mon_chain reg t' r
+      | None =>       (* only writing an ill-formed type may raise *)
+          match op with ORoundtrip => negb (wf_b prev) | _ => false end &&
+          match r with [] => true | _ => false end
+      end
+  end.
 Definition mon (c : case) : bool :=
   match c with
   | CTy t ob oopq oser => mon_ty t ob oopq oser
   | CStatic elem acc ob => mon_static elem acc ob
   | CJoin bs r => ob_eqb r (Some (if forallb (fun b => bound_eqb b Copyable) bs then Copyable else Any))
   | CSeq steps => forallb mon_step steps
+  | CSame reg t ob oopq oser steps => mon_ty t ob oopq oser && mon_chain reg t steps
   end.
